@@ -26,21 +26,24 @@
 (***************************************************************************)
 EXTENDS Naturals, Sequences, FiniteSets, TLC, Json
 
-CONSTANTS TableSeq, MaxLen, MaxPairs, Known, Emit
+CONSTANTS TableSeq, MaxLen, MaxPairs, Known, Emit, ColumnLess
 
 Tables == {TableSeq[i] : i \in DOMAIN TableSeq}
 
 None == "none"
-RwStmts == {[k |-> "rw", r |-> R, w |-> w, t |-> None, pairs |-> <<>>] : R \in SUBSET Tables, w \in Tables \cup {None}}
-DropStmts == {[k |-> "drop", r |-> {}, w |-> None, t |-> t, pairs |-> <<>>] : t \in Tables}
+\* cl = TRUE: the statement moves no named column (INSERT INTO w SELECT 1 FROM r): the written table gets no column edges
+RwStmts == {[k |-> "rw", r |-> R, w |-> w, t |-> None, pairs |-> <<>>, cl |-> cl] :
+               R \in SUBSET Tables, w \in Tables \cup {None}, cl \in (IF ColumnLess THEN BOOLEAN ELSE {FALSE})}
+DropStmts == {[k |-> "drop", r |-> {}, w |-> None, t |-> t, pairs |-> <<>>, cl |-> FALSE] : t \in Tables}
 Pairs1 == {<<x, y>> : x \in Tables, y \in Tables}
-RenStmts == {[k |-> "ren", r |-> {}, w |-> None, t |-> None, pairs |-> <<p>>] : p \in {q \in Pairs1 : q[1] # q[2]}}
+RenStmts == {[k |-> "ren", r |-> {}, w |-> None, t |-> None, pairs |-> <<p>>, cl |-> FALSE] : p \in {q \in Pairs1 : q[1] # q[2]}}
             \cup (IF MaxPairs >= 2
-                  THEN {[k |-> "ren", r |-> {}, w |-> None, t |-> None, pairs |-> <<p, q>>] :
+                  THEN {[k |-> "ren", r |-> {}, w |-> None, t |-> None, pairs |-> <<p, q>>, cl |-> FALSE] :
                            p \in {z \in Pairs1 : z[1] # z[2]}, q \in {z \in Pairs1 : z[1] # z[2]}}
                   ELSE {})
 \* two pairs of one statement never rename the same table twice and never rename two tables to one name
 ValidStmt(s) == /\ (s.k = "rw" => (s.r # {} \/ s.w # None))
+                /\ (s.k = "rw" /\ s.cl => s.r # {})
                 /\ (s.k = "ren" /\ Len(s.pairs) = 2 => (s.pairs[1][1] # s.pairs[2][1] /\ s.pairs[1][2] # s.pairs[2][2]))
 Stmts == {s \in RwStmts \cup DropStmts \cup RenStmts : ValidStmt(s)}
 
@@ -70,7 +73,7 @@ M == [nodes |-> nodes, attr |-> attr, anch |-> anch, edges |-> edges, crashed |-
 ComposeRW(m, s, order) ==
    LET W == IF s.w = None THEN <<>> ELSE <<s.w>> IN
    [m EXCEPT !.nodes = AppendNew(@, W \o order),
-             !.anch = @ \cup s.r \cup (IF s.r # {} /\ s.w # None THEN {s.w} ELSE {})]
+             !.anch = @ \cup s.r \cup (IF s.r # {} /\ s.w # None /\ ~s.cl THEN {s.w} ELSE {})]
 TagOrEdges(m, s) ==
    IF s.r # {} /\ s.w = None THEN [m EXCEPT !.attr = [t \in Tables |-> IF t \in s.r THEN @[t] \cup {"so"} ELSE @[t]]]
    ELSE IF s.r = {} /\ s.w # None THEN [m EXCEPT !.attr[s.w] = @ \cup {"to"}]
@@ -198,8 +201,17 @@ IdealRen(I, ps, ordered, o) ==
            ELSE IF I2.exact /\ (o.e # exp.e \/ o.s # exp.s \/ o.t # exp.t \/ o.i # exp.i) THEN "rename_in_place"
            ELSE "ok",
     st |-> [I2 EXCEPT !.prev = o]]
+\* whatever the history, the classification follows from the summary's own edges by the stated rules: no incoming but
+\* outgoing => source, no outgoing but incoming => target, intermediate = both minus self loops, self loop => source and target
+RolesFollowEdges(o) ==
+   LET N == {e[1] : e \in o.e} \cup {e[2] : e \in o.e} IN
+   /\ {t \in N : InD(o.e, t) = 0} \subseteq o.s
+   /\ {t \in N : OutD(o.e, t) = 0} \subseteq o.t
+   /\ o.i = {t \in N : InD(o.e, t) > 0 /\ OutD(o.e, t) > 0} \ SelfL(o.e)
+   /\ SelfL(o.e) \subseteq (o.s \cap o.t)
 IdealStep(I, s, ordered, o) ==
    IF o.x # "none" THEN [ok |-> "ok", st |-> [I EXCEPT !.exact = FALSE, !.prev = o]]
+   ELSE IF ~RolesFollowEdges(o) THEN [ok |-> "roles_follow_edges", st |-> I]
    ELSE CASE s.k = "rw" -> IdealRW(I, s, o) [] s.k = "drop" -> IdealDrop(I, s.t, o) [] s.k = "ren" -> IdealRen(I, s.pairs, ordered, o)
 
 (***************************************************************************)
